@@ -6,7 +6,9 @@ cd "$(dirname "$0")/.." || exit 2
 ls -d seeded/*/ | xargs -P "$jobs" -I{} bash -c '
   d={}; n=$(basename $d)
   p=$(python3 -c "import json;m=json.load(open(\"$d/meta.json\"));print(m.get(\"matrix_check\") or m[\"property\"])")
-  if [ "$p" = "none" ]; then printf "%-12s %s\n" $n "NOT-CAUGHT (recorded in meta.json: outside the workloads of every check)"; exit 0; fi
+  if [ "$p" = "none" ]; then
+    why=$(python3 -c "import json;m=json.load(open(\"$d/meta.json\"));print(\"NEUTRALISED (no longer breaks the property: \"+m[\"neutralised_by\"][:110]+\"...)\" if m.get(\"neutralised_by\") else \"NOT-CAUGHT (recorded in meta.json: outside the workloads of every check)\")")
+    printf "%-12s %s\n" $n "$why"; exit 0; fi
   r=$(tools/mutant_par.sh $PWD/$d/patch.diff '"$tier"' $p 2>&1 | cut -c1-170 | tr "\n" " ")
   printf "%-12s %s\n" $n "$r"
 ' | sort
